@@ -9,13 +9,20 @@ CONSTANT N
 
 GInit == recs = <<>> /\ bo = "aligned" /\ i = 1 /\ j = 2 /\ pc = "gen"
 GNext == /\ Len(recs) < N
-         /\ \E x \in Recs : /\ (Len(recs) = 0 \/ Idx(x) >= Idx(recs[Len(recs)]))
+         /\ \E x \in Recs : /\ (IF Len(recs) = 0 THEN TRUE ELSE Idx(x) >= Idx(recs[Len(recs)]))
                             /\ recs' = Append(recs, x)
          /\ UNCHANGED <<bo, i, j, pc>>
 GSpec == GInit /\ [][GNext]_vars
 
+\* -simulate: one random multiset of exactly N records per N+1 steps (long lists, thorough tier)
 Tup(x) == <<IF x.v2 THEN 1 ELSE 0, x.seq, x.eol, x.var>>
 Emit == Len(recs) = 0 \/
         PrintT(<<"BEHAVIOUR", ToJson([ms |-> [k \in 1..Len(recs) |-> Tup(recs[k])],
                                        best |-> Tup(Best(ToSet(recs)))])>>)
+Flush == /\ Len(recs) = N
+         /\ PrintT(<<"BEHAVIOUR", ToJson([ms |-> [k \in 1..Len(recs) |-> Tup(recs[k])],
+                                          best |-> Tup(Best(ToSet(recs)))])>>)
+         /\ recs' = <<>> /\ UNCHANGED <<bo, i, j, pc>>
+GNextSim == IF Len(recs) = N THEN Flush ELSE GNext
+GSpecSim == GInit /\ [][GNextSim]_vars
 =============================================================================
